@@ -678,6 +678,16 @@ class C12(Prop):
                 return "scalar path differs from the NumPy reference at flat index %d: scalar=%r reference=%r" % (k, float(y[k]), float(r[k]))
             return None
         bnd = np.asarray(bound, dtype=np.float64).reshape(-1)
+        # an element whose exact value (within the bound) leaves the element type's range is outside the domain (overflow of a long
+        # product gives inf on both sides, |inf - inf| is NaN): not judged
+        fmax = float(np.finfo(np.float32 if case["dt"] == "f32" else np.float64).max) if case["dt"] in ("f32", "f64") else None
+        if fmax is not None:
+            over = ~np.isfinite(r) | (np.abs(r) + bnd >= fmax)
+            if over.any():
+                keep = ~over
+                x, y, r, bnd = x[keep], y[keep], r[keep], bnd[keep]
+                if not len(x):
+                    return None
         for name, v, w, wn in (("SIMD vs scalar", x, y, "scalar"), ("SIMD vs float64 reference", x, r, "reference"), ("scalar vs float64 reference", y, r, "reference")):
             bad = ~(np.abs(v - w) <= bnd)
             if bad.any():
